@@ -7,6 +7,7 @@ import (
 	"fmt"
 	"strings"
 	"testing"
+	"time"
 
 	"github.com/redis/rueidis/vshim/simnet"
 	"github.com/redis/rueidis/vshim/simredis"
@@ -23,6 +24,99 @@ type c25cfg struct {
 	hooks   bool // the dedicated session installs Pub/Sub hooks and subscribes
 	twoDed  bool // two dedicated sessions run concurrently
 	viaFn   bool // Dedicated(fn) instead of Dedicate()/cancel
+	// stale: retries are on; the session's retryable GET is answered LOADING once, another thread releases the
+	// session at any point, a later holder runs its own transaction on the (only) pooled connection
+	stale bool
+}
+
+func c25stale(c c25cfg) func(x *vsched.Exec) {
+	return func(x *vsched.Exec) {
+		released := false
+		retryAfterRelease := false
+		arrivals, lateArrival := 0, false
+		e := vwNew(func(o *ClientOption, srv *simredis.Server, n *simnet.Net) {
+			o.BlockingPoolSize = 1
+			o.DisableRetry = false
+			o.RetryDelay = func(attempts int, cmd Completed, err error) time.Duration {
+				if released {
+					retryAfterRelease = true // the retry is decided after the release has completed: it must be refused
+				}
+				return 10 * time.Millisecond
+			}
+			srv.Do("SET", "k", "0")
+			srv.Hook = func(ss *simredis.Session, argv []string) *simredis.Reply {
+				if len(argv) == 2 && strings.ToUpper(argv[0]) == "GET" && argv[1] == "stale" {
+					arrivals++
+					if arrivals == 1 {
+						r := simredis.Err("LOADING Redis is loading the dataset in memory")
+						return &r
+					}
+					if retryAfterRelease {
+						lateArrival = true
+					}
+				}
+				return nil
+			}
+		})
+		if e.err != nil {
+			x.Fail("client setup failed", "%v", e.err)
+			return
+		}
+		ctx := context.Background()
+		var staleErr error
+		started := false
+		dc, cancel := e.client.Dedicate()
+		vsched.GoNamed("ded1", func() {
+			started = true
+			staleErr = dc.Do(ctx, dc.B().Get().Key("stale").Build()).Error()
+		})
+		vsched.GoNamed("releaser", func() {
+			vsched.Point("gate-start", func() bool { return started })
+			cancel()
+			released = true
+		})
+		vsched.GoNamed("next-holder", func() {
+			vsched.Point("gate-release", func() bool { return released })
+			e.client.Dedicated(func(d2 DedicatedClient) error {
+				b := d2.B()
+				d2.Do(ctx, b.Echo().Message("n-start").Build())
+				d2.Do(ctx, b.Watch().Key("k").Build())
+				d2.DoMulti(ctx, b.Multi().Build(), b.Set().Key("k").Value("n").Build(), b.Exec().Build())
+				d2.Do(ctx, b.Echo().Message("n-end").Build())
+				return nil
+			})
+		})
+		if x.Run() != vsched.Quiescent {
+			return
+		}
+		if lateArrival {
+			x.Fail("a released dedicated client sent a command", "GET stale was answered LOADING; the session was released before the retry was decided, yet the retry reached the server (arrivals %d); the call returned %v", arrivals, staleErr)
+		}
+		if retryAfterRelease && staleErr != ErrDedicatedClientRecycled && arrivals > 1 {
+			x.Fail("released dedicated client accepted a call", "retry after release returned %v", staleErr)
+		}
+		for _, ss := range e.srv.Sessions {
+			var window []string
+			in := false
+			for _, a := range ss.Received {
+				j := strings.Join(a, " ")
+				if j == "ECHO n-start" {
+					in = true
+				}
+				if in {
+					window = append(window, j)
+				}
+				if j == "ECHO n-end" {
+					in = false
+				}
+			}
+			want := "ECHO n-start|WATCH k|MULTI|SET k n|EXEC|ECHO n-end"
+			if len(window) > 0 && strings.Join(window, "|") != want {
+				x.Fail("commands of another caller interleaved with a dedicated session", "the later holder's connection received %v between its first and last command", window)
+			}
+		}
+		x.Outcome = fmt.Sprintf("arrivals=%d err=%v retryAfterRelease=%v", arrivals, vwErrStr(staleErr), retryAfterRelease)
+	}
 }
 
 func c25body(c c25cfg) func(x *vsched.Exec) {
@@ -222,7 +316,7 @@ func c25body(c c25cfg) func(x *vsched.Exec) {
 
 func TestVerif_C25(t *testing.T) {
 	vrun.Main(t, "C25", func(r *vrun.Run) {
-		r.Rule = "a dedicated session (WATCH; MULTI; SET; EXEC, optionally Pub/Sub hooks + SUBSCRIBE) through Dedicate()/cancel and Dedicated(fn), concurrently with a second dedicated session, shared-pipeline commands and a blocking BLPOP on the same pool (size 1-2), followed by a later holder reusing the pooled connection; all schedules within the preemption/delay bound; oracle on the fake server's per-connection command logs"
+		r.Rule = "a dedicated session (WATCH; MULTI; SET; EXEC, optionally Pub/Sub hooks + SUBSCRIBE) through Dedicate()/cancel and Dedicated(fn), concurrently with a second dedicated session, shared-pipeline commands and a blocking BLPOP on the same pool (size 1-2), followed by a later holder reusing the pooled connection; plus a session whose retryable command is in retry back-off (LOADING once, retries on) while another thread releases it and a later holder runs its transaction on the same connection; all schedules within the preemption/delay bound; oracle on the fake server's per-connection command logs"
 		cfgs := []c25cfg{
 			{name: "pool1/ded+shared", pool: 1, shared: true},
 			{name: "pool1/fn/ded+shared", pool: 1, shared: true, viaFn: true},
@@ -232,8 +326,13 @@ func TestVerif_C25(t *testing.T) {
 			{name: "pool1/hooks/ded+shared", pool: 1, hooks: true, shared: true},
 			{name: "pool1/hooks/fn/ded|ded", pool: 1, hooks: true, twoDed: true, viaFn: true},
 		}
+		cfgs = append(cfgs, c25cfg{name: "pool1/stale-retry|release|next-holder", pool: 1, stale: true})
 		for ci, c := range cfgs {
-			vexp.Run(r, vexp.Prog{Name: c.name, Delay: 1, Budget: vsched.Budget{MaxPreempt: vrun.Pick(r, 1, 2)}, Opts: vsched.Options{Horizon: 20000}, Body: c25body(c), Seconds: r.Remaining() / float64(len(cfgs)-ci)})
+			body := c25body(c)
+			if c.stale {
+				body = c25stale(c)
+			}
+			vexp.Run(r, vexp.Prog{Name: c.name, Delay: 1, Budget: vsched.Budget{MaxPreempt: vrun.Pick(r, 1, 2)}, Opts: vsched.Options{Horizon: 20000, MaxVirtual: time.Minute}, Body: body, Seconds: r.Remaining() / float64(len(cfgs)-ci)})
 		}
 		r.Assume("isolation is judged on the fake server's per-connection command log between the session's first and last command")
 	})
